@@ -99,7 +99,7 @@ func metaScripts(maxLen int) []nsqd.MetaSpec {
 
 func checkC06(tier string) int {
 	rep := vx.NewReport("C06", tier, "fault_enumeration")
-	rep.Rule = "E4: every script of <= N admin operations (create/delete/pause/unpause of topics and channels, durable and ephemeral, over the real HTTP handlers) x every schedule with <= d deviations (E2) x every prefix of the file-effect log of nsqd.dat* x loss variants of unsynced data (all / none / torn); each image is loaded by the real New+LoadMetadata (+ a second restart cycle). distinct = distinct (script, answer codes) outcomes; evaluations = images judged"
+	rep.Rule = "E4: every script of <= N admin operations (create/delete/pause/unpause of topics and channels, durable and ephemeral, over the real HTTP handlers) (+ scripts whose last step is two requests in flight at once: identical, conflicting, create vs delete) x every schedule with <= d deviations (E2) x every prefix of the file-effect log of nsqd.dat* x loss variants of unsynced data (all / none / torn); each image is loaded by the real New+LoadMetadata (+ a second restart cycle). distinct = distinct (script, answer codes) outcomes; evaluations = images judged"
 	rep.Assumptions = []string{"rename/unlink are atomic and durable once returned (no directory fsync modelled)", "unsynced written data may be fully present, fully lost, or torn in the middle", "idle = quiescence of every daemon goroutine"}
 	maxLen, bound, secs := 2, 1, 20
 	if tier == "thorough" {
@@ -111,6 +111,16 @@ func checkC06(tier string) int {
 		for _, s := range [][]string{{"mk:a", "mkch:a:x", "rmch:a:x"}, {"mk:a", "mkch:a:x", "rm:a"}, {"mk:a", "rm:a", "mk:a"}, {"mk:a", "pause:a", "rm:a"}, {"mk:a", "mkch:a:x", "pausech:a:x"}, {"mk:a", "mk:b", "rm:a"}, {"mk:a", "mkch:a:z#ephemeral", "rmch:a:z#ephemeral"}} {
 			specs = append(specs, nsqd.MetaSpec{Steps: s})
 		}
+	}
+	// two requests in flight at once: identical (a retry, a second operator) and conflicting
+	for _, pre := range [][]string{{"mk:a", "mkch:a:x"}} {
+		for _, pr := range [][2]string{{"pause:a", "pause:a"}, {"pausech:a:x", "pausech:a:x"}, {"pause:a", "unpause:a"}, {"pausech:a:x", "unpausech:a:x"},
+			{"pause:a", "pausech:a:x"}, {"pause:a", "mkch:a:y"}, {"pausech:a:x", "rmch:a:x"}, {"pause:a", "rm:a"}, {"mkch:a:y", "rmch:a:x"}, {"rm:a", "mk:b"}, {"mk:b", "mk:b"}, {"rmch:a:x", "rmch:a:x"}, {"rm:a", "rm:a"}} {
+			specs = append(specs, nsqd.MetaSpec{Steps: append(append([]string{}, pre...), pr[0]+"||"+pr[1])})
+		}
+	}
+	for _, pr := range [][2]string{{"unpause:a", "unpause:a"}, {"unpausech:a:x", "unpausech:a:x"}} {
+		specs = append(specs, nsqd.MetaSpec{Steps: []string{"mk:a", "mkch:a:x", "pause:a", "pausech:a:x", pr[0] + "||" + pr[1]}})
 	}
 	var args []interface{}
 	for _, s := range specs {
